@@ -1,10 +1,9 @@
 (* Proofs about NV.Bcf.Lazy, part 2: LAZY = EAGER on the site block.  Whenever the eager read_site
-   (NV.Bcf.Record.dec_head) accepts a site block and no allele is an empty typed string, Fields::index
+   (NV.Bcf.Record.dec_head) accepts a site block, Fields::index
    succeeds and every lazy view of the site (reference sequence name, position, quality, ids,
    reference bases, alternate bases, filters, the three counts, the INFO bytes) is what read_site
    decoded. *)
 From Coq Require Import ZArith NArith List Bool Lia ZifyBool ZifyNat ZifyN.
-From NV Require Import Base.Percent.
 From NV Require Import Bcf.Ints Bcf.IntsProofs Bcf.Typed Bcf.Strings Bcf.Genotype Bcf.StringMap Bcf.Record
   Bcf.RecordTyped Bcf.NeverPanics Bcf.Lazy Bcf.LazyProofs.
 Import ListNotations.
@@ -92,38 +91,20 @@ Proof.
 Qed.
 
 (* ---------------------------------------------------------------- alleles *)
-(* the class lazy-empty-allele: a REF / ALT typed string of length 0 *)
-Fixpoint alleles_nonempty (n : nat) (bs : list N) : bool :=
-  match n with
-  | O => true
-  | S n' =>
-    match dec_str bs with
-    | Some (Some _, r) => alleles_nonempty n' r
-    | Some (None, _) => false
-    | None => true
-    end
-  end.
-
-Definition site_alleles_nonempty (sb : list N) : bool :=
-  match dec_str (skipn 24 sb) with
-  | Some (_, r4) => alleles_nonempty (Z.to_nat (allele_count sb)) r4
-  | None => true
-  end.
-
+(* (an allele that is the empty typed string is `.` in both readers since 0ba8d0b) *)
 Lemma alts_agree : forall sb n off l r, (off <= length sb)%nat ->
-  dec_alleles n (skipn off sb) = Some (l, r) -> alleles_nonempty n (skipn off sb) = true ->
+  dec_alleles n (skipn off sb) = Some (l, r) ->
   exists e, consume_alts n (skipn off sb) off = Some (e, r) /\
             lz_alt_values n (firstn (e - off) (skipn off sb)) = ROk l.
 Proof.
-  intros sb. induction n as [|n IH]; intros off l r Hoff H Hne; cbn [dec_alleles] in H; cbn [alleles_nonempty] in Hne.
+  intros sb. induction n as [|n IH]; intros off l r Hoff H; cbn [dec_alleles] in H.
   - injection H as Hl Hr. subst l r. exists off. split; reflexivity.
   - destruct (dec_str (skipn off sb)) as [[o r1]|] eqn:Ed; [|discriminate].
     destruct (dec_alleles n r1) as [[l1 r2]|] eqn:Ea; [|discriminate]. injection H as Hl Hr. subst l r2.
-    destruct o as [x|]; [|discriminate].
     destruct (dec_str_local _ _ _ Ed) as [d [Hb [Hd Hloc]]].
     destruct (consume_string_of_dec_str sb off _ _ Hoff Ed) as [s [e1 [Hc _]]].
     pose proof (consume_string_bounds sb off s e1 r1 Hoff Hc) as [B1 [B2 [B3 B4]]].
-    subst r1. destruct (IH e1 l1 r B3 Ea Hne) as [e [He Hv]].
+    subst r1. destruct (IH e1 l1 r B3 Ea) as [e [He Hv]].
     pose proof (consume_alts_bounds sb n e1 e r B3 He) as [C1 [C2 C3]].
     exists e. cbn [consume_alts]. rewrite Hc. split; [exact He|].
     cbn [lz_alt_values].
@@ -326,10 +307,9 @@ Lemma site_tail : forall strings contigs sb c p l q r0 cname qv h info_bytes,
     end
   | None => None
   end = Some (h, info_bytes) ->
-  site_alleles_nonempty sb = true ->
   exists bd, site_views strings contigs sb h info_bytes bd.
 Proof.
-  intros strings contigs sb c p l q r0 cname qv h info_bytes Hbytes Hsb Hall Hneg Hcn Hq H Hne.
+  intros strings contigs sb c p l q r0 cname qv h info_bytes Hbytes Hsb Hall Hneg Hcn Hq H.
   destruct (take 2 r0) as [[ni r1]|] eqn:E1; [|discriminate].
   destruct (take 2 r1) as [[na r2]|] eqn:E2; [|discriminate].
   destruct (take 4 r2) as [[fs r3]|] eqn:E3; [|discriminate].
@@ -356,20 +336,18 @@ Proof.
   rewrite <- Hsk in E4.
   destruct (consume_string_of_dec_str sb 24 ids r4 H24 E4) as [s1 [e1 [Hc1 [Hp1 Hu1]]]].
   pose proof (consume_string_bounds sb 24 s1 e1 r4 H24 Hc1) as [A1 [A2 [A3 A4]]].
-  (* the class *)
-  unfold site_alleles_nonempty in Hne. rewrite E4 in Hne. rewrite Hac in Hne.
+  (* the reference bases *)
   assert (0 <= le_val [n17; n18]) as Hna0 by (cbn [le_val]; lia).
   destruct (Z.to_nat (le_val [n17; n18])) as [|na'] eqn:Ena'; [lia|].
-  cbn [dec_alleles] in E5. cbn [alleles_nonempty] in Hne.
+  cbn [dec_alleles] in E5.
   destruct (dec_str r4) as [[o r4']|] eqn:E8; [|discriminate].
   destruct (dec_alleles na' r4') as [[alts' r5']|] eqn:E9; [|discriminate].
-  injection E5 as Hra Halts Hr5. subst alts' r5'.
-  destruct o as [x|]; [|discriminate]. subst ra.
+  injection E5 as Hra Halts Hr5. subst alts' r5'. subst ra.
   rewrite A4 in E8.
-  destruct (consume_string_of_dec_str sb e1 (Some x) r4' A3 E8) as [s2 [e2 [Hc2 [Hp2 [Hx Hux]]]]].
+  destruct (consume_string_of_dec_str sb e1 o r4' A3 E8) as [s2 [e2 [Hc2 [Hp2 Hux]]]].
   pose proof (consume_string_bounds sb e1 s2 e2 r4' A3 Hc2) as [B1 [B2 [B3 B4]]].
-  rewrite B4 in E9, Hne.
-  destruct (alts_agree sb na' e2 alts r5 B3 E9 Hne) as [e3 [Hc3 Hv3]].
+  rewrite B4 in E9.
+  destruct (alts_agree sb na' e2 alts r5 B3 E9) as [e3 [Hc3 Hv3]].
   pose proof (consume_alts_bounds sb na' e2 e3 r5 B3 Hc3) as [C1 [C2 C3]].
   rewrite C3 in E6.
   destruct (filters_agree sb e3 fi r6 C2 E6) as [e4 [Hc4 [Hr6 Hf4]]].
@@ -393,7 +371,8 @@ Proof.
   - cbn [h_ids]. unfold lz_ids. cbn [b_ids fst snd]. rewrite lz_slice_ok by lia. cbn [rbind]. rewrite Hp1.
     destruct ids as [xi|]; [|reflexivity]. destruct Hu1 as [Hne1 _]. destruct xi; [contradiction|reflexivity].
   - cbn [h_ref]. unfold lz_ref. cbn [b_ref fst snd]. rewrite lz_slice_ok by lia. cbn [rbind]. rewrite Hp2.
-    rewrite Hux. reflexivity.
+    destruct o as [x|]; [|reflexivity]. destruct Hux as [Hxne Hux]. cbv zeta.
+    destruct x as [|x0 x]; [contradiction|]. rewrite Hux. reflexivity.
   - cbn [h_alts]. unfold lz_alts. cbn [b_ref b_alt_end fst snd]. rewrite lz_slice_ok by lia. cbn [rbind].
     assert (lz_u16 18 sb = ROk (le_val [n17; n18])) as Hu by (subst sb; reflexivity). rewrite Hu. cbn [rbind].
     rewrite Ena. replace (Z.to_nat (le_val [n17; n18] - 1)) with na' by lia. exact Hv3.
@@ -411,15 +390,13 @@ Proof.
     cbn [le_val]. lia.
 Qed.
 
-(* LAZY = EAGER on the site: whatever read_site decodes, the lazy views return, outside the class
-   lazy-empty-allele *)
+(* LAZY = EAGER on the site: whatever read_site decodes, the lazy views return *)
 Theorem site_agree : forall strings contigs sb h info_bytes,
   byte_list sb ->
   dec_head strings contigs sb = Some (h, info_bytes) ->
-  site_alleles_nonempty sb = true ->
   exists bd, site_views strings contigs sb h info_bytes bd.
 Proof.
-  intros strings contigs sb h info_bytes Hbytes H Hne. unfold dec_head in H.
+  intros strings contigs sb h info_bytes Hbytes H. unfold dec_head in H.
   destruct (chunks 4 4 sb) as [[l0 r0]|] eqn:Ech; [|discriminate].
   apply chunks_concat in Ech. destruct Ech as [Hsb [Hl0 Hall]].
   destruct l0 as [|c [|p [|l [|q [|]]]]]; try discriminate Hl0.
@@ -433,6 +410,6 @@ Proof.
     len_explicit c 4%nat. len_explicit p 4%nat. len_explicit l 4%nat. len_explicit q 4%nat.
     cbn [concat app lz_slice length Nat.leb andb Nat.sub skipn firstn rbind]. exact Hc. }
   destruct (classify_f (le_val q)) as [b| | |] eqn:Eq; try discriminate.
-  - apply (site_tail strings contigs sb c p l q r0 cname (Some b) h info_bytes Hbytes Hsb Hall Hneg Hcn (Hq _ eq_refl) H Hne).
-  - apply (site_tail strings contigs sb c p l q r0 cname None h info_bytes Hbytes Hsb Hall Hneg Hcn (Hq _ eq_refl) H Hne).
+  - apply (site_tail strings contigs sb c p l q r0 cname (Some b) h info_bytes Hbytes Hsb Hall Hneg Hcn (Hq _ eq_refl) H).
+  - apply (site_tail strings contigs sb c p l q r0 cname None h info_bytes Hbytes Hsb Hall Hneg Hcn (Hq _ eq_refl) H).
 Qed.
